@@ -603,6 +603,11 @@ def resolve_strategy_inline_recurse(path, base, decisions):
                 # TODO: Do inline merge
                 pass
 
+            elif k == 'attachments':
+                # Keep the attachments of both cells, prefer local on name clashes
+                cell[k] = dict(rcell.get(k, {}))
+                cell[k].update(lcell.get(k, {}))
+
             else:
                 raise ValueError('Conflict on unrecognized key: %r' % (k,))
 
